@@ -4,10 +4,28 @@ CONFIG = dict(
         rule='operation sequences on one toposort.Graph (AddNode/AddEdge/RemoveEdge/ReindexNode, then Toposort on a copy x5 and on 3 graphs '
              'rebuilt from the same operation sequence, FindCycle, FindChildren, FindParents): all digraphs on <=3 nodes with self loops and on '
              '4 nodes (quick: without self loops) in two insertion orders, random graphs up to 30 nodes with removal+reindex rounds, a '
-             'DAG-biased stream and a malformed stream (duplicates, unknown endpoints, missing reindex). Non-trivial = at least 2 nodes and '
-             '1 edge; distinct = distinct operation list.',
-        exhaustive_note='digraphs on <=3 nodes (with self loops) x 2 insertion orders enumerated completely; 4 nodes without self loops (quick) / with (thorough)',
-        assumptions=['node names are fixed-width so that Go string order equals numeric order of the model (sort.Strings is modelled as a sort of integers)',
+             'DAG-biased stream and a malformed stream (duplicates, unknown endpoints, missing reindex). '
+             'NAME SPACE: nodes are integers in the trace; the strings given to the Go code come from a per-case name table written into the '
+             'trace ((names ...), byte lists) and the model runs on the rank of each name in plain byte order. Fixed-width names n00042 for the '
+             'exhaustive streams and a quarter of the random cases; drawn tables for the rest, for a second pass over all digraphs on <=3 nodes '
+             '(ex2names/ex3names) and for the stream `names` (several roots + hubs whose children are removed/re-added and re-indexed, all '
+             'names from ONE confusable family): numbered suffixes with and without leading zeros / signs / overflowing values (Item_2, Item_10, '
+             'x_07, x_+7, job_1a, _7), mixed case, Unicode (NFC/NFD pairs, ligatures, invalid UTF-8), empty-looking names (blanks, NUL, '
+             'zero-width), names that are prefixes of each other, spaces and brackets ([entity]), common prefixes of 7..1000 bytes, planner-like '
+             'Name_1..Name_12. '
+             'SCALE (kinds scale_*): rings, rings with a tail, with chords, rings sharing only the seed, long paths, combs, banded DAGs, dense '
+             'DAGs, dense blob + long chain back to the seed, stars with removal + re-index of many edges of one node, many parents, many roots, '
+             'random functional graphs, with 10^3, 3*10^3, 10^4 nodes (quick), 10^5 and for rings/paths 10^6 (thorough); ring lengths, degrees '
+             'and root counts straddle 2^8, 2^9, 2^10 (1023..1027), 2^11, 2^12, 2^13, 2^14, 2^15, 2^16 (quick: +1 side only above 2^12); ascending / '
+             'descending / scrambled insertion; written as bulk operations (addnodes/addedges/rmedges/reindexes) so that a replay stays a few '
+             'operations long; some under name tables (unpadded Item_<k>, two spellings of every number, 64-byte common prefix). Cases with more '
+             'than 2500 primitive operations are judged by an independent linear-time oracle in the driver (order validity, acyclicity by Kahn '
+             'counting, cycle validity, existence of a cycle through the seed by reachability) instead of the quadratic model; on all smaller cases '
+             'that oracle is cross-checked against the extracted ones. Sorts of cases above 15000 operations are repeated on 3 copies + 1 rebuilt '
+             'graph instead of 5 + 3. Non-trivial = at least 2 nodes and 1 edge; distinct = distinct name table + operation list.',
+        exhaustive_note='digraphs on <=3 nodes (with self loops) x 2 insertion orders enumerated completely, once under fixed-width names and (2 and 3 nodes) once more under drawn name tables; 4 nodes without self loops (quick) / with (thorough)',
+        assumptions=['node names are arbitrary distinct non-empty byte strings; the model works on integers whose order stands for the plain byte order of the '
+                     'names (sort.Strings is modelled as a sort of integers, the driver maps every name to its rank in byte order before the model runs)',
                      'the empty string is not used as a node name (it is FindCycle\'s sentinel; hypothesis is_node s nobody = false of the FindCycle '
                      'theorems, part of valid_ops, proved to hold in every reachable state)',
                      'FindCycle/FindParents iterate Go maps: the model takes the iteration order as an argument; the theorems hold for every order, '
@@ -16,15 +34,21 @@ CONFIG = dict(
                      'the correspondence check tests: every Sort is run on 5 copies and on 3 graphs rebuilt from the same operations and all must '
                      'give the model\'s single answer'],
         trusted_base=['hand-written Gallina model coq/theories/Toposort/Model.v of internal/toposort/toposort.go, tied to the code by the replay '
-                      'of every harness case (zero mismatches on all generated cases incl. exhaustive small scopes and malformed sequences)'],
+                      'of every harness case (zero mismatches on all generated cases incl. exhaustive small scopes and malformed sequences)',
+                      'for the scale cases beyond 2500 primitive operations: the independent OCaml oracle in ocaml/c15/driver.ml (mirror of the node '
+                      'and edge sets in hash tables, Kahn counting, reachability, edge-by-edge cycle check, about 60 lines) - not extracted from Coq; '
+                      'cross-checked against the extracted wfb / cycle_ok / model answers on every smaller case of every run',
+                      'the rank computation of the driver (OCaml String compare = byte order) and the expansion of bulk operations (the same '
+                      'three-line loop in harness and driver)'],
         level_text='Coq proof, over ALL states reached by valid operation sequences (induction over the operation list) of the executable model '
                    'that the harness replays against the Go code: Toposort never panics, returns success iff the graph is acyclic, and on success a '
                    'permutation of the nodes with every edge forward (refinement to an abstract Kahn algorithm, fuel bound proved); FindCycle, for '
                    'every map iteration order, returns a real cycle through the seed and returns one whenever one exists; removal followed by '
                    'ReindexNode restores the domain (two-level invariant). All 19 theorems closed under the global context (no axioms).',
-        level_note='Trusted: the correspondence between Model.v and toposort.go (tested, not proved: 15 752 cases per quick run, all digraphs on <=3 '
-                   'nodes / 4 nodes, random graphs to 30 nodes, malformed sequences; fine comparison of every return value and of the exact order), '
-                   'Coq kernel, extraction, OCaml driver, Go harness. Modelled rather than verified: Go strings as integers (fixed-width names), '
+        level_note='Trusted: the correspondence between Model.v and toposort.go (tested, not proved: about 19 500 cases per quick run, all digraphs on <=3 '
+                   'nodes / 4 nodes, random graphs to 30 nodes, malformed sequences, adversarial name tables, graphs up to 1250 nodes through the model and '
+                   'up to 65 537 (thorough 10^6) nodes through the independent oracle; fine comparison of every return value and of the exact order), '
+                   'Coq kernel, extraction, OCaml driver, Go harness. Modelled rather than verified: Go strings as integers (the rank of the name in byte order), '
                    'Go maps as association lists, map iteration as an explicit order argument (theorems quantify over it for FindCycle; Toposort, '
                    'AddEdge, ReindexNode are order-independent by construction in the model and their independence in Go is covered by repeated '
                    'runs only). BreadthSort, Serialize and DebugDump are not modelled (not part of the property).',
